@@ -261,6 +261,23 @@ func Eval(c *core.Ctx, line string) *core.Case {
 		return &core.Case{Line: line, Impl: "accept"}
 	case "tbl.inv", "tbl.spec":
 		return &core.Case{Line: line, Impl: "ok"}
+	case "tbl.conc":
+		// concurrent stage (conc.go); decided for C05 only, no model counterpart
+		if len(f) != 4 || c.Prop != "C05" {
+			return nil
+		}
+		var seed, g, rounds int
+		fmt.Sscan(f[1], &seed)
+		fmt.Sscan(f[2], &g)
+		fmt.Sscan(f[3], &rounds)
+		bad := concRound(int64(seed), g, rounds)
+		return &core.Case{Line: "tbl.inv -!-", Impl: "ok", Trivial: true, Class: "concurrent", Cmp: func(a, b string) bool { return true },
+			Oracle: func() (string, string) {
+				if bad == "" {
+					return "", ""
+				}
+				return "C05: " + bad + "   [" + line + "]", ""
+			}}
 	case "tbl.hist":
 		if len(f) > 2 {
 			return nil
@@ -553,6 +570,15 @@ func Gen(c *core.Ctx) {
 		}
 	}
 	corpusH := stHist
+
+	// 1b. concurrent stage (C05 only: "all quiescent points of the concurrent executions")
+	if c.Prop == "C05" {
+		for k := 0; k < c.Scale(3, 30); k++ {
+			if cs := Eval(c, fmt.Sprintf("tbl.conc %d 8 %d", c.Rnd.Intn(1<<20), c.Scale(1000, 3000))); cs != nil {
+				c.Add(*cs)
+			}
+		}
+	}
 
 	// 2. bounded-exhaustive exploration
 	full, mid, cor := alphaFull(), alphaMid(), alphaCore()
